@@ -150,7 +150,7 @@ def check_run(case, res):
             f"flux recovery {rff[k]!r} vs in-place {rfd[k]!r} at t={t[k]!r} (ceiling {ceiling!r}, nx={nx}, E_t={e_t!r}, eps_table={eps!r}, theta={theta!r}, p_f/p_i={r.p_f / r.p_i!r});",
         )
     # in-place recovery never exceeds the ceiling
-    res.check("C03/in-place-below-ceiling", max(float(np.max(rfd)) - ceiling, 0.0), 1e-9 * ceiling + 1e-13 + 64 * np.finfo(float).eps * nx, f"in-place recovery {float(np.max(rfd))!r} above 1 - rho_f/rho_i = {ceiling!r} (p_f/p_i={r.p_f / r.p_i!r}, nx={nx});")
+    res.check("C03/in-place-below-ceiling", max(float(np.max(rfd)) - ceiling, 0.0), 1e-9 * ceiling + 1e-13 + 512 * np.finfo(float).eps * nx, f"in-place recovery {float(np.max(rfd))!r} above 1 - rho_f/rho_i = {ceiling!r} (p_f/p_i={r.p_f / r.p_i!r}, nx={nx});")
     # monotone in time while the frac-face pressure does not rise
     sched = r.schedule
     non_rising = sched is None or bool(np.all(np.diff(sched) <= 0))
@@ -167,7 +167,7 @@ def check_run(case, res):
         regain = np.maximum(dens[1:, 0] - dens[:-1, 0], 0.0) / mass0
         drop = -np.diff(rfd) - regain
         # 1 - sum(rho)/sum(rho_0) over nx nodes carries a rounding error of ~ eps nx in absolute terms
-        res.check("C03/in-place-recovery-non-decreasing", max(float(np.max(drop)), 0.0), 1e-9 * ceiling + 1e-12 + 64 * np.finfo(float).eps * nx, f"in-place recovery decreases by more than node 0 regains: {float(np.max(drop))!r} (ceiling {ceiling!r});")
+        res.check("C03/in-place-recovery-non-decreasing", max(float(np.max(drop)), 0.0), 1e-9 * ceiling + 1e-12 + 512 * np.finfo(float).eps * nx, f"in-place recovery decreases by more than node 0 regains: {float(np.max(drop))!r} (ceiling {ceiling!r});")
     rb = c01.relaxation_bound(r) if r.constant_drawdown and nt > 1 else float("inf")
     res.labels["gap_oracle"] = "effective" if admissible < 0.5 * ceiling else "vacuous"
     res.nontrivial = bool(nx >= 5 and (rb < 1e-2 * r.d or nt >= 51) and admissible < 0.5 * ceiling)
